@@ -17,5 +17,5 @@ one() {
   echo "$t -> ${det:-NONE}"
 }
 export -f one
-for t in "${ids[@]}"; do echo "$t ${EXTRA[$t]:-}"; done | xargs -P4 -L1 bash -c 'one "$0" "${*:1}"'
+for t in "${ids[@]}"; do echo "$t ${EXTRA[$t]:-}" | sed 's/ *$//'; done | xargs -P4 -L1 bash -c 'one "$0" "$*"'
 python3 tools/seeded_results.py
